@@ -1,0 +1,27 @@
+//go:build verif
+// +build verif
+
+// Verification hook (C16, second part): in-package exports of the header-level VRF paths
+// (verifyBlockVRF, vrfWorker.genProve) so that the property harness can drive them on header
+// objects it owns. Compiled only with -tags verif.
+package logical
+
+import (
+	"time"
+
+	"com.tuntun.rangers/node/src/consensus/model"
+	"com.tuntun.rangers/node/src/consensus/vrf"
+	"com.tuntun.rangers/node/src/middleware/types"
+)
+
+// VerifVRFVerifyBlockVRF is verifyBlockVRF.
+func VerifVRFVerifyBlockVRF(bh *types.BlockHeader, preBH *types.BlockHeader, castor *model.MinerInfo, totalStake uint64) (bool, error) {
+	VerifVRFQuietLog()
+	return verifyBlockVRF(bh, preBH, castor, totalStake)
+}
+
+// VerifVRFGenProve is newVRFWorker(miner, baseBH, castHeight, expire).genProve(castTime, totalStake).
+func VerifVRFGenProve(miner *model.SelfMinerInfo, baseBH *types.BlockHeader, castHeight uint64, castTime time.Time, totalStake uint64) (vrf.VRFProve, uint64, error) {
+	VerifVRFQuietLog()
+	return newVRFWorker(miner, baseBH, castHeight, castTime.Add(time.Hour)).genProve(castTime, totalStake)
+}
